@@ -1209,17 +1209,23 @@ def link_matrix_part(ck, rng, stats, d_inc, d_exc, thorough):
     res = lib.driver(reqs)
     # model (what the code sees: links are leaves, dangling ones skipped) and specification (follow_symlinks = false: no links),
     # once per group in the plainest spelling; both are proved to be independent of spelling and working directory
-    defs, items = [], []
-    for gi, (ti, root, children, targets, cfg, runs) in enumerate(groups):
+    # (locations are printed relative to the project root: printing long paths is what costs in Coq); a group with several targets
+    # covers the same places as its first group with one target: it is compared with that one
+    defs, items, single = [], [], [g for g in groups if len(g[3]) == 1]
+    for ti, root, children, targets, cfg, runs in single:
         if not any(d.startswith("Definition lw%d " % ti) for d in defs):
             defs.append("Definition lw%d := %s." % (ti, clnode(lworld(root, children))))
-        cwdn = cstrs([p for p in root.split("/") if p])
-        args = "%s %s %s %s %s" % (cwdn, clist([cspath(t) for t in targets]), cbool(cfg[2]), cstrs(cfg[0]), cstrs(cfg[1]))
-        items.append("(option_map (fun ps => map (fun p => segs (abs %s p)) ps) (collect_python_files (code_world lw%d) %s), analyzed_spec false lw%d %s)"
-                     % (cwdn, ti, args, ti, args))
-    jobs = [("C18_linkmatrix_%d" % off, REQ_LINKS, "\n".join(defs) + "\nEval vm_compute in %s.\n" % clist(items[off:off + 12]))
-            for off in range(0, len(items), 12)]
-    vals = [v for out in lib.coq_eval_many(jobs, workers=16) for v in lib.parse_coq_values(out)[0]]
+        rootn = [p for p in root.split("/") if p]
+        args = "%s %s %s %s %s" % (cstrs(rootn), clist([cspath(t) for t in targets]), cbool(cfg[2]), cstrs(cfg[0]), cstrs(cfg[1]))
+        items.append("(option_map (fun ps => map (fun p => skipn %d (segs (abs %s p))) ps) (collect_python_files (code_world lw%d) %s), "
+                     "map (skipn %d) (analyzed_spec false lw%d %s))" % (len(rootn), cstrs(rootn), ti, args, len(rootn), ti, args))
+    jobs = [("C18_linkmatrix_%d" % off, REQ_LINKS, "\n".join(defs) + "\nEval vm_compute in %s.\n" % clist(items[off:off + 3]))
+            for off in range(0, len(items), 3)]
+    svals = [v for out in lib.coq_eval_many(jobs, workers=16) for v in lib.parse_coq_values(out)[0]]
+    by_target = {}
+    for g, v in zip(single, svals):
+        by_target.setdefault((g[0], g[3][0], json.dumps(g[4])), v)
+    vals = [by_target[(g[0], g[3][0] if len(g[3]) == 1 else min(g[3], key=len), json.dumps(g[4]))] for g in groups]
     nviol = 0
     pos = 0
     st = {"groups": 0, "runs": 0, "cli_runs": 0, "multi_target_groups": 0, "links_in_common_sets": 0, "max_matrix": 0}
@@ -1263,7 +1269,7 @@ def link_matrix_part(ck, rng, stats, d_inc, d_exc, thorough):
                           link_texts={os.path.relpath(x, root): os.readlink(x) for x in sorted(set(sets[ref]) ^ set(sets[i])) if os.path.islink(x)},
                           disagreeing_runs=len(differ), runs_in_matrix=len(runs))
                 ck.violation("the analysed set depends on the working directory / the spelling of the target (tree with symbolic links): [%s] selects %d files, [%s] selects %d "
-                             "(%d of the %d runs of this matrix differ from the majority); only in the first %s, only in the second %s"
+                             "(%d of the %d runs of this matrix differ from the most frequent result); only in the first %s, only in the second %s"
                              % (cmdline(runs[ref][0], runs[ref][1], cfg), len(sets[ref]), cmdline(runs[i][0], runs[i][1], cfg), len(sets[i]), len(differ), len(runs),
                                 only_ref[:6], only_i[:6]), rp, independent=True)
             continue
@@ -1278,8 +1284,8 @@ def link_matrix_part(ck, rng, stats, d_inc, d_exc, thorough):
             continue
         common = sets[ref]
         st["links_in_common_sets"] += sum(1 for x in common if is_link(x))
-        spec = sorted({loc_str(x) for x in mspec})
-        model = None if mcode is None else sorted({loc_str(x) for x in mcode[1]})
+        spec = sorted({abs_loc(root, loc_str(x)[1:] or ".") for x in mspec})
+        model = None if mcode is None else sorted({abs_loc(root, loc_str(x)[1:] or ".") for x in mcode[1]})
         if common != spec:
             extra, missing = sorted(set(common) - set(spec)), sorted(set(spec) - set(common))
             e = ck.match_known({"part": "links", "cause": "file-link", "follow": False})
@@ -1294,6 +1300,48 @@ def link_matrix_part(ck, rng, stats, d_inc, d_exc, thorough):
                                  dict(replay, cwd=runs[0][0], targets=runs[0][1], impl=common, spec=spec, model=model))
         elif common != model:
             ck.broken_ties.append("link matrix: targets %s: CollectPythonFiles selects %s, model Cli/FileSelLinks.v code_view says %s" % (runs[0][1], common[:8], (model or [])[:8]))
+    # ---- a link to a directory named as the target itself: with and without a trailing slash, from several working directories -------
+    dl_reqs, dl_groups = [], []
+    for ti, (root, children, elsewhere, ldirs) in enumerate(trees):
+        if not thorough and ti not in (0, 2):
+            continue
+        ldir = os.path.join(root, *ldirs[-1])
+        for name in ("r_dl", "a_dl", "r_dl_up", "a_dl_up", "r_dl_out", "a_dl_out", "r_mod.py", "a_mod.py"):
+            link = os.path.join(ldir, name)
+            runs = []
+            for cwd in (ldir, root, elsewhere):
+                rel = os.path.relpath(link, cwd)
+                for sp in (rel, link, rel + "/", link + "/", rel + "/.", "./" + rel if not rel.startswith(".") else rel + "//"):
+                    runs.append((cwd, sp))
+            dl_groups.append((ti, root, children, link, runs))
+            dl_reqs += [{"op": "collect", "cwd": cwd, "targets": [sp], "include": ["**/*.py"], "exclude": [], "recursive": True} for cwd, sp in runs]
+    dl_res = lib.driver(dl_reqs)
+    pos = 0
+    for ti, root, children, link, runs in dl_groups:
+        rs = dl_res[pos:pos + len(runs)]
+        pos += len(runs)
+        stats["evaluations"] += len(runs)
+        st["dir_link_target_runs"] = st.get("dir_link_target_runs", 0) + len(runs)
+        outs = [None if ("error" in r or r.get("failed")) else sorted(abs_loc(cwd, p) for p in r["files"]) for (cwd, sp), r in zip(runs, rs)]
+        if all(o == outs[0] for o in outs):
+            continue
+        slash = [o for (cwd, sp), o in zip(runs, outs) if sp.endswith("/") or sp.endswith("/.")]
+        plain = [o for (cwd, sp), o in zip(runs, outs) if not (sp.endswith("/") or sp.endswith("/."))]
+        behind = sorted(os.path.join(link, os.path.relpath(os.path.join(dp, f), os.path.realpath(link)))
+                        for dp, _, fs in os.walk(os.path.realpath(link)) for f in fs if f.endswith(".py"))
+        e = ck.match_known({"part": "linkmatrix", "cause": "dir-link-target-trailing-slash"})
+        if e and all(o == [] for o in plain) and all(o == behind for o in slash):
+            stats["known_dir_link_target_cases"] = stats.get("known_dir_link_target_cases", 0) + 1
+            ck.known_finding(e)
+            continue
+        nviol += 1
+        if nviol <= 3:
+            ref = lm_majority(outs)
+            i = [k for k, o in enumerate(outs) if o != outs[ref]][0]
+            ck.violation("a symbolic link to a directory named as the target: [cd %s && CollectPythonFiles([%r])] selects %s, [cd %s && CollectPythonFiles([%r])] selects %s"
+                         % (runs[ref][0], runs[ref][1], outs[ref], runs[i][0], runs[i][1], outs[i]),
+                         {"kind": "linkmatrix-dirlink-target", "tree": children, "root": root, "link": link, "link_text": os.readlink(link), "cwd": runs[i][0], "targets": [runs[i][1]],
+                          "other_cwd": runs[ref][0], "other_targets": [runs[ref][1]], "include": ["**/*.py"], "exclude": [], "recursive": True}, independent=True)
     # ---- the command itself: files of the report, summary.total_files and exit status over working directories x spellings -----------
     for ti, (root, children, elsewhere, ldirs) in enumerate(trees):
         deepest = ldirs[-1]
@@ -1341,7 +1389,7 @@ def link_matrix_part(ck, rng, stats, d_inc, d_exc, thorough):
                     i = differ[0]
                     fa, fb = set(outs[ref][2] or []), set(outs[i][2] or [])
                     ck.violation("pyscn analyze on a tree with symbolic links depends on the working directory / the spelling of the target: `cd %s && pyscn analyze %s` gives exit %s, "
-                                 "total_files %s, %d files in the report; `cd %s && pyscn analyze %s` gives exit %s, total_files %s, %d files (%d of %d runs differ from the majority); "
+                                 "total_files %s, %d files in the report; `cd %s && pyscn analyze %s` gives exit %s, total_files %s, %d files (%d of %d runs differ from the most frequent result); "
                                  "only in the first %s, only in the second %s"
                                  % (matrix[ref][0], matrix[ref][1], outs[ref][0], outs[ref][1], len(fa), matrix[i][0], matrix[i][1], outs[i][0], outs[i][1], len(fb), len(differ), len(outs),
                                     [os.path.relpath(x, root) for x in sorted(fa - fb)[:6]], [os.path.relpath(x, root) for x in sorted(fb - fa)[:6]]),
@@ -1439,6 +1487,18 @@ def main(tier):
                 "list, recursive or all three differ, chosen so that applying it would change the selection), the target without any "
                 "configuration (root and a directory inside, spelled absolutely and as ../..) and with its own / a --config configuration: "
                 "the patterns in force are those of the target's configuration (rule of C17 with the working directory never consulted), else the built-in ones. "
+                "link matrix: 5 trees (links in the directory at depth 0, 1, 2, 3 of proj/pkg/deep/er, and in all four) holding, each with a relative "
+                "and with an absolute link text, links to a .py file of the same directory, of a directory below, of the sibling directory through "
+                "'..' (outside the project at depth 0), outside the project, './x', a link to a link, a text file under a Python name, a Python file "
+                "under another name, .pyi, test_*, dangling links (same directory, '..', missing directory) and links to directories (plain and "
+                "Python file name; below, through '..', outside) x every target at or above the link directory x working directory (target, its "
+                "parent, the link directory, a directory below it, project root, its parent, an unrelated directory, a directory outside, /) x "
+                "spelling (relative, absolute, ./, trailing slash, ../<cwd>/rel, shared/../rel) x pattern lists / recursive: the set selected by "
+                "CollectPythonFiles must be identical over the whole matrix (decided on the implementation alone), each path once (also for "
+                "target lists [target, link directory] in both orders and the target twice in two spellings), the common set then compared with "
+                "Cli/FileSelLinks.v (code_view / specification with follow_symlinks = false; links to files = C18-G1); pyscn analyze on the same "
+                "trees over working directories x spellings: exit status, summary.total_files and the files of the report identical; a link to "
+                "a directory named as the target itself with and without trailing slash (C18-G5). "
                 "distinct = distinct (tree, cwd, targets, patterns, recursive)" % (
                     5 if thorough else 4, "alone, before and after every other atom, and in triples" if thorough else "alone and before and after each of 13 core atoms",
                     len(LATTICE_NAMES), len(LATTICE_SLASHLESS), len(LATTICE_PATHS)),
@@ -1448,6 +1508,8 @@ def main(tier):
                                    e2e_full_syntax_runs=stats.get("e2e_full_syntax_runs", 0),
                                    **{k: v for k, v in sorted(stats.items()) if k.startswith("e2e_foreign_cwd")},
                                    lattice_patterns=len(LATTICE_SLASHLESS) + len(LATTICE_PATHS), lattice_target_pairs=stats.get("lattice_target_pairs", 0),
+                                   **{"linkmatrix_" + k: v for k, v in sorted(stats.get("linkmatrix", {}).items())},
+                                   known_link_cases=stats.get("known_link_cases", 0), known_dir_link_target_cases=stats.get("known_dir_link_target_cases", 0),
                                    known_class_separator_cases=stats.get("known_class_separator_cases", 0),
                                    unit_class_separator_skipped=stats.get("unit_class_separator_skipped", 0),
                                    collect_cases_full_syntax=sum(1 for c in cases if any(ch in q for q in c.inc + c.exc for ch in "[]{}\\")), **gstats),
@@ -1459,6 +1521,8 @@ def main(tier):
                    "a separator; = Cli/Glob.v on patterns without [ ] { } \\, proved) and Cli/FileSel.v "
                    "(service/file_reader.go; filepath.Clean/Join/Abs modelled, filepath.Rel(dir, Join(dir, r)) = r and filepath.Walk "
                    "order assumed), bound to the code by this differential test",
-                   "file system without symlinks, unreadable entries or non-ASCII names; every `x/..` in a spelling goes through an existing directory"]
+                   "file system without unreadable entries or non-ASCII names; symbolic links only in the link parts (link kinds file / directory / dangling of "
+                   "Cli/FileSelLinks.v; the link text is not modelled: what a link points to does not depend on the working directory); "
+                   "every `x/..` in a spelling goes through an existing directory that is no link"]
     ck.finish(assumptions=["targets exist or the run fails as a whole", "patterns within the compared doublestar domain (xpat_ok: well-formed, none of match.go's end-of-name quirks)",
-                           "no symbolic links; names are ASCII without '/'", "a file argument is spelled with the file name last"])
+                           "symbolic links only as entries below the target (a link named as the target: C18-G5); names are ASCII without '/'", "a file argument is spelled with the file name last"])
